@@ -8,19 +8,81 @@ THEOREM_FILES = ["Summer.Props.C06"]
 TASK = "task"
 RULE = ("programs with literal / parameterised / expression-valued distributions and splits, full and partial stratifications, "
         "population-split adjustments after the last stratification, optional whole-population array; observables "
-        "get_initial_population, one_step().initial_population and row 0 of the outputs of each solver; non-trivial when there is "
+        "get_initial_population, one_step().initial_population and row 0 of the outputs of each solver; plus pairs of models sharing one Stratification "
+        "object with different earlier layouts; non-trivial when there is "
         ">= 1 stratification")
 TRUSTED = ["Spec.initPop in lean/Summer/Spec/InitPop.lean is the reading of the property"]
 ASSUMPTIONS = ["population-split adjustments are requested after the last stratification (the property's quantifier)"]
 
 def payloads(tier, seed):
     n = 70 if tier == "quick" else 1500
-    return [{"seed": seed, "index": i} for i in range(n)]
+    return [{"seed": seed, "index": i} for i in range(n)] + [{"seed": seed, "index": i, "mode": "shared"} for i in range(n // 4)]
+
+def shared_task(W, payload):
+    """two models built in one interpreter that SHARE their last Stratification object but differ in the layout before it
+    (scenario models): each model's initial population, evaluated with a freshly built runner, must equal the model's value"""
+    import interp as interp_mod
+    r = random.Random(f"C06s:{payload['seed']}:{payload['index']}")
+    prog = Gen(r, Opts(max_strats=2, force_strat=True, allow_requests=False, allow_computed=False, max_flows=3, allow_post_flows=False,
+                       allow_adjust=False, allow_mixing=False, allow_inf_adjust=False, allow_rebalance=False, allow_age=False)).program()
+    out = mk_out(prog)
+    bump(out, "mode:shared_stratification")
+    ops = prog["build"]
+    si = [i for i, op in enumerate(ops) if op["op"] == "stratify"]
+    if not si:
+        return out
+    last = si[-1]
+    key = f"shared:{payload['seed']}:{payload['index']}"
+    opsA = [dict(op) for op in ops]; opsA[last]["share"] = key
+    names = ops[0]["comps"]
+    extra = {"op": "stratify", "kind": "plain", "name": "xtra", "strata": ["k1", "k2"], "comps": [r.choice(names)],
+             "split": [["k1", {"c": "1/4"}], ["k2", {"c": "3/4"}]]}
+    opsB = opsA[:last] + [extra] + opsA[last:]
+    interp_mod.SHARED_STRATS.pop(key, None)
+    try:
+        SA = fresh_session(W); okA = SA.build([{k: v for k, v in op.items() if k != "share"} for op in opsA][:0]) or True
+        # build on the implementation with sharing, on the model without (the model has no object identity)
+        IA = interp_mod.Interp(); IB = interp_mod.Interp()
+        for op in opsA:
+            if not IA.apply(op)["ok"]: return out
+        for op in opsB:
+            if not IB.apply(op)["ok"]: return out
+        params = [[k, v] for k, v in prog["params"].items()]
+        # order matters on the unchanged tree: finalising B re-registers the graph keys of the shared object, after which A can no
+        # longer be evaluated with a fresh runner (documented in DESIGN 8.3 as outside the property's quantifier) - so A first, then B
+        for label, I, opsX in (("A", IA, opsA), ("B", IB, opsB)):
+            I.runner = None
+            py = I.apply({"op": "init_pop_eval", "params": params})
+            L = W["rat"]
+            okL = True
+            for op in opsX:
+                if not L.send({k: v for k, v in op.items() if k != "share"})["ok"]:
+                    okL = False; break
+            ln = L.send({"op": "init_pop_eval", "params": params}) if okL else {"ok": False}
+            out["evals"] += 1
+            if py["ok"] != ln["ok"]:
+                out["diffs"].append({"stage": "S6", "what": f"initial_population of model {label}: raise / no-raise (Stratification object shared between two models)",
+                                     "prescribed": True, "impl": py.get("err", "ok"), "model": ln.get("err", "ok"), "program_A": opsA, "program_B": opsB,
+                                     "task": {"module": "c06", "fn": "task", "payload": payload}})
+            if py["ok"] and ln["ok"]:
+                out["cases"].append(prog_hash(opsX) + ":" + label)
+                if not vec_close(py["x0"], ln["x0"], 1e-12):
+                    out["diffs"].append({"stage": "S6", "what": f"initial_population of model {label} (Stratification object shared between two models)",
+                                         "prescribed": True, "impl": py["x0"], "model": [float(v) for v in ln["x0"]], "program_A": opsA, "program_B": opsB,
+                                         "task": {"module": "c06", "fn": "task", "payload": payload}})
+    finally:
+        interp_mod.SHARED_STRATS.pop(key, None)
+    if payload["index"] == 0:
+        out["sample"] = {"shared": True, "program_A": opsA, "extra_in_B": extra}
+    return out
+
 
 def task(W, payload):
+    if payload.get("mode") == "shared":
+        return shared_task(W, payload)
     r = random.Random(f"C06:{payload['seed']}:{payload['index']}")
     prog = Gen(r, Opts(max_strats=3, allow_array_pop=True, allow_requests=False, allow_computed=False, max_flows=3,
-                       allow_adjust=False, allow_mixing=False, allow_inf_adjust=False)).program()
+                       allow_adjust=False, allow_mixing=False, allow_inf_adjust=False, rebalance_prob=0.8)).program()
     S = fresh_session(W)
     out = mk_out(prog)
     if not S.build(prog["build"]):
